@@ -19,6 +19,7 @@ type profile struct {
 	name string
 	// weights of op classes
 	wEvent, wAck, wSave, wMicro, wLife, wQuery int
+	pEnd                                       int // % of life steps that end one (not the last) vBucket stream for good (clean STREAM_END)
 	pReserved  int // % of document events with a library-reserved key
 	pIllFormed int // % of events outside their snapshot / regressing
 	pSkip      int // % of cases with skipUntil
@@ -34,8 +35,8 @@ type profile struct {
 }
 
 var profiles = map[string]profile{
-	"sess-base": {wEvent: 45, wAck: 25, wSave: 10, wMicro: 8, wLife: 4, wQuery: 8, pReserved: 12, pIllFormed: 3, pSkip: 20, pStore: 50, pAhead: 0, pLatest: 35, pFailSave: 25, pSysEv: 15, pRO: 8, minOps: 20, maxOps: 60, maxVb: 4},
-	"sess-crash": {wEvent: 40, wAck: 22, wSave: 14, wMicro: 10, wLife: 10, wQuery: 4, pReserved: 10, pIllFormed: 0, pSkip: 5, pStore: 60, pAhead: 0, pLatest: 30, pFailSave: 45, pSysEv: 20, pRO: 0, minOps: 25, maxOps: 70, maxVb: 4},
+	"sess-base": {pEnd: 12, wEvent: 45, wAck: 25, wSave: 10, wMicro: 8, wLife: 4, wQuery: 8, pReserved: 12, pIllFormed: 3, pSkip: 20, pStore: 50, pAhead: 0, pLatest: 35, pFailSave: 25, pSysEv: 15, pRO: 8, minOps: 20, maxOps: 60, maxVb: 4},
+	"sess-crash": {pEnd: 14, wEvent: 40, wAck: 22, wSave: 14, wMicro: 10, wLife: 10, wQuery: 4, pReserved: 10, pIllFormed: 0, pSkip: 5, pStore: 60, pAhead: 0, pLatest: 30, pFailSave: 45, pSysEv: 20, pRO: 0, minOps: 25, maxOps: 70, maxVb: 4},
 	"sess-deliver": {wEvent: 75, wAck: 10, wSave: 3, wMicro: 0, wLife: 3, wQuery: 9, pReserved: 18, pIllFormed: 6, pSkip: 45, pStore: 40, pAhead: 0, pLatest: 30, pFailSave: 0, pSysEv: 18, pRO: 5, minOps: 25, maxOps: 80, maxVb: 8},
 	"sess-ack": {wEvent: 35, wAck: 50, wSave: 5, wMicro: 0, wLife: 2, wQuery: 8, pReserved: 8, pIllFormed: 0, pSkip: 0, pStore: 50, pAhead: 0, pLatest: 20, pFailSave: 0, pSysEv: 10, pRO: 0, minOps: 20, maxOps: 70, maxVb: 3},
 	"sess-save": {wEvent: 30, wAck: 25, wSave: 12, wMicro: 28, wLife: 1, wQuery: 4, pReserved: 8, pIllFormed: 0, pSkip: 0, pStore: 40, pAhead: 0, pLatest: 30, pFailSave: 35, pSysEv: 30, pRO: 10, minOps: 25, maxOps: 70, maxVb: 3},
@@ -77,6 +78,7 @@ type genSt struct {
 	high     map[int]uint64
 	waiter   int // saver blocked in saveLock.Lock() (0 = none)
 	hung     bool
+	ended    map[int]bool // vBuckets whose stream ended for good in the current session
 	// sess-api (l1_api_gen.go)
 	viaAPI, pingFail, infoSent bool
 	infoM, infoT               int
@@ -168,6 +170,46 @@ func (g *genSt) randColl() int {
 
 func (g *genSt) pickVb() int { return g.lo + g.c.R.Intn(g.hi-g.lo+1) }
 
+// a vBucket whose stream the server still has (same draw as pickVb when no stream has ended)
+func (g *genSt) pickLive() int {
+	for i := 0; i < 8; i++ {
+		if vb := g.pickVb(); !g.ended[vb] {
+			return vb
+		}
+	}
+	for vb := g.lo; vb <= g.hi; vb++ {
+		if !g.ended[vb] {
+			return vb
+		}
+	}
+	return g.lo
+}
+
+// a regular stream end (STREAM_END with status OK: finite mode reached its end, or the server is done with the stream) on one
+// vBucket - never the last one still streaming: that end stops the client, which is C12's subject, not the session's. The end
+// itself settles nothing: positions, dirty marks and the store stay as they are.
+func (g *genSt) endOne() {
+	if !g.open {
+		return
+	}
+	var live []int
+	for vb := g.lo; vb <= g.hi; vb++ {
+		if !g.ended[vb] {
+			live = append(live, vb)
+		}
+	}
+	if len(live) < 2 {
+		return
+	}
+	vb := live[g.c.R.Intn(len(live))]
+	g.do(fmt.Sprintf("end %d", vb))
+	if g.ended == nil {
+		g.ended = map[int]bool{}
+	}
+	g.ended[vb] = true
+	g.tags["end.clean"] = true
+}
+
 func (g *genSt) noteDeliveries(real string) {
 	for _, part := range strings.Split(real, " ; ") {
 		f := strings.Fields(part)
@@ -188,7 +230,7 @@ func (g *genSt) noteDeliveries(real string) {
 
 func (g *genSt) event() {
 	r := g.c.R
-	vb := g.pickVb()
+	vb := g.pickLive()
 	v := g.vbs[vb]
 	if v.next == 0 || v.next > 1<<63 {
 		// the seqno space of this vBucket is (nearly) exhausted: a real server sends nothing more
@@ -489,6 +531,7 @@ func (g *genSt) openSession() {
 	}
 	if strings.HasPrefix(real, "openreq") {
 		g.open = true
+		g.ended = nil
 		g.ctxIdx = nil
 		for _, part := range strings.Split(real, " ; ") {
 			f := strings.Fields(part)
@@ -560,6 +603,7 @@ func (g *genSt) rebalance() {
 	real := g.do(fmt.Sprintf("%s %d %d", rebOp, lo, hi))
 	g.tags["life.rebalance"] = true
 	g.lo, g.hi = lo, hi
+	g.ended = nil
 	for _, part := range strings.Split(real, " ; ") {
 		f := strings.Fields(part)
 		if len(f) == 3 && f[0] == "openreq" {
@@ -579,7 +623,7 @@ func (g *genSt) rebalance() {
 // a transient stream end: the vBucket is re-requested from its position, possibly on a new history branch
 func (g *genSt) reopen() {
 	r := g.c.R
-	vb := g.pickVb()
+	vb := g.pickLive()
 	if r.Chance(60) {
 		g.do(fmt.Sprintf("flog %d %d", vb, 1+r.Intn(5000)))
 		g.tags["reopen.new-uuid"] = true
@@ -590,6 +634,10 @@ func (g *genSt) reopen() {
 
 func (g *genSt) life() {
 	r := g.c.R
+	if g.p.pEnd > 0 && r.Chance(g.p.pEnd) {
+		g.endOne()
+		return
+	}
 	switch x := r.Intn(100); {
 	case x < 25:
 		g.rebalance()
